@@ -19,7 +19,7 @@ CHECKS = {
              text="Exhaustive within bounds at the lexical level: for every class string of the Lexer.tla configurations the server's response is decoded under the relative encoding and must be strictly increasing and equal (line, column, length, legend class) to the highlighted lexemes computed by the specification; invalid text must give a null result.",
              ref="DESIGN.md 3.1, 5/C15"),
  "C13": dict(tech="TLC model checking of Cli.tla (ExitOkDiagAgree, EchoTokenizeExit, DependsOnlyOnDenotation); every enumerated invocation run as a real ironplcc process and compared; relational comparison of invocations with equal denotation",
-             text="Exhaustive within bounds: every argument sequence up to length 2 (quick) / 3 (thorough) over 7 files of all classes, 6 directories (incl. empty, with unreadable entry) and a missing path, for check / echo / tokenize, is executed; exit status, OK line and the set of (code, file) must equal the observation computed by the specification; directory vs file list, argument order and repetition are compared run against run.",
+             text="Exhaustive within bounds: every argument sequence up to length 3 (quick) / 4 (thorough) over 9 files of all classes (two with names that differ in letter case only), 7 directories (incl. empty, with unreadable entry) and a missing path, for check / echo / tokenize, is executed; exit status, OK line and the set of (code, file) must equal the observation computed by the specification; directory vs file list, argument order and repetition are compared run against run.",
              ref="DESIGN.md 3.7, 5/C13"),
  "C14": dict(tech="TLC model checking of Cli.tla ReadDecode/EncodingTransparent over all encoding assignments; each replayed on a disk written in those encodings; exhaustive byte sweep in four lexical contexts; random binary files",
              text="Exhaustive within bounds: all 125 assignments of {UTF-8, UTF-8+BOM, UTF-16LE/BE+BOM, Windows-1252} to three files carrying non-ASCII text before a planted fault; verdict, codes and line:col must equal the specification's (encoding-free) observation and each other. Every byte value 0x00-0xFF in a comment, a string, between tokens and inside an identifier, plus random binary files: no crash, contract holds, positions inside the decoded text, neutral characters keep the verdict. Size clause: the same faulty program padded so that a run of 2-, 3- and 4-byte characters crosses byte offsets 512 ... 8192 (thorough: 256 ... 65536) at eight alignments in all five encodings.",
@@ -83,7 +83,7 @@ def main():
             "guard": "ironplc_verif",
             "enable": "RUSTFLAGS='--cfg ironplc_verif' (set by /verif/harness/.cargo/config.toml and drivers/vlib.py build())",
             "baseline_off_cmd": "cd /repo/compiler && cargo test --workspace --no-fail-fast --offline",
-            "source_commits": ["6db0167ffadc87bed3adf33419fbc2f349b81482", "fe2b4cca6ce84d95db1ae1f73b007300ac0cf8f4"],
+            "source_commits": ["6db0167ffadc87bed3adf33419fbc2f349b81482", "fe2b4cca6ce84d95db1ae1f73b007300ac0cf8f4", "b211d1df9aefcd12b30d8860f7a7c71141d805e9"],
             "add_only": True,
         },
         "engines": [
@@ -93,8 +93,8 @@ def main():
         "checks": checks,
         "not_applicable": na,
         "notes": ("All properties are observed through public interfaces (parse_program, tokenize_program, stages::analyze, Project, write_to_string, the ironplcc binary over argv/stdio). "
-                  "Two source hooks exist. Commit 6db0167: under --cfg ironplc_verif the Debug output of dsl::common::AddressAssignment also prints the address components, "
-                  "which the harness needs to compare direct addresses (C09/C01); with the guard off the original impl is compiled unchanged. Commit fe2b4cc: analyzer/src/stages.rs records, under the same guard, the declarations each stage sees and the problem codes it produces (thread local list, drained by the harness) for trace validation by PipelineTrace.tla; with the guard off the original loops are compiled unchanged. "
+                  "Three source hooks exist. Commit 6db0167: under --cfg ironplc_verif the Debug output of dsl::common::AddressAssignment also prints the address components, "
+                  "which the harness needs to compare direct addresses (C09/C01); with the guard off the original impl is compiled unchanged. Commit fe2b4cc: analyzer/src/stages.rs records, under the same guard, the declarations each stage sees and the problem codes it produces (thread local list, drained by the harness) for trace validation by PipelineTrace.tla; with the guard off the original loops are compiled unchanged. Commit b211d1d: analyzer/src/symbol_table.rs records, under the same guard, every operation on a symbol table (enter, exit, add, try_add, find with key and result) into the same list, for trace validation by ScopeTrace.tla; add-only. "
                   "Repairs of genuine defects are the unguarded 'fix:' commits listed in known_findings.json (fixed); open defects are listed there under findings. "
                   "drivers/seeded.py + seeded/ hold the seeded changes used to test the checks (never applied to /repo outside a test run)."),
     }
